@@ -2,5 +2,5 @@
 import subprocess, re
 t = open("/verif/DESIGN.md").read()
 tab = subprocess.run(["python3", "/verif/tools/seeded_table.py"], capture_output=True, text=True).stdout
-t = re.sub(r"<!-- SEEDED-TABLE-BEGIN -->.*<!-- SEEDED-TABLE-END -->", "<!-- SEEDED-TABLE-BEGIN -->\n" + tab + "<!-- SEEDED-TABLE-END -->", t, flags=re.S)
+t = re.sub(r"<!-- SEEDED-TABLE-BEGIN -->.*<!-- SEEDED-TABLE-END -->", lambda _m: "<!-- SEEDED-TABLE-BEGIN -->\n" + tab + "<!-- SEEDED-TABLE-END -->", t, flags=re.S)
 open("/verif/DESIGN.md", "w").write(t)
